@@ -53,6 +53,10 @@ type summary struct {
 	Pools           int      `json:"pool_ops"`
 	ClockReads      int      `json:"clock_reads"`
 	GoStmts         int      `json:"go_stmts"`
+	ChanOps         int      `json:"chan_ops"`
+	Selects         int      `json:"selects"`
+	Sleeps          int      `json:"sleeps"`
+	SyncMapRanges   int      `json:"syncmap_ranges"`
 	UncontrolledMap []string `json:"uncontrolled_map_ranges"`
 	Unmodelled      []string `json:"unmodelled_sync"`
 	TypeErrors      []string `json:"type_errors"`
@@ -66,6 +70,7 @@ var (
 	flagLocks  = flag.Bool("locks", true, "rewrite mutex operations")
 	flagClock  = flag.Bool("clock", true, "rewrite clock reads")
 	flagGo     = flag.Bool("go", true, "rewrite go statements")
+	flagChans  = flag.Bool("chans", true, "rewrite channel operations, select, time.Sleep, runtime.Gosched and sync.Map.Range")
 	flagSites  = flag.String("sites", "", "write the site table to this file")
 	flagRT     = flag.String("rt", "zzsim/simrt", "module-relative import path of simrt")
 )
@@ -261,6 +266,13 @@ type fileCtx struct {
 	fn    string
 	// timeIdent is the local name of package time if a clock read was rewritten.
 	timeIdent string
+	// runtimeIdent is the local name of package runtime if a Gosched was rewritten.
+	runtimeIdent string
+	// opaque lists source regions replaced by text that contains a raw copy of
+	// the original; edits inside them are dropped.
+	opaque [][2]int
+	// recv2 marks the receive expressions used in two-valued form.
+	recv2 map[*ast.UnaryExpr]bool
 }
 
 func (c *fileCtx) off(p token.Pos) int { return c.fset.Position(p).Offset }
@@ -268,7 +280,7 @@ func (c *fileCtx) off(p token.Pos) int { return c.fset.Position(p).Offset }
 func (c *fileCtx) text(n ast.Node) string { return string(c.src[c.off(n.Pos()):c.off(n.End())]) }
 
 func instrumentFile(fset *token.FileSet, info *types.Info, f *ast.File, src []byte, rel string) ([]byte, bool) {
-	c := &fileCtx{fset: fset, info: info, src: src, rel: rel}
+	c := &fileCtx{fset: fset, info: info, src: src, rel: rel, recv2: map[*ast.UnaryExpr]bool{}}
 	for _, d := range f.Decls {
 		switch d := d.(type) {
 		case *ast.FuncDecl:
@@ -280,6 +292,21 @@ func instrumentFile(fset *token.FileSet, info *types.Info, f *ast.File, src []by
 			c.fn = "(package scope)"
 			c.walk(d)
 		}
+	}
+	if len(c.opaque) > 0 {
+		var kept []edit
+		for _, e := range c.edits {
+			drop := false
+			for _, r := range c.opaque {
+				if r[0] <= e.start && e.end <= r[1] && !(e.start == r[0] && e.end == r[1]) && !(e.start == e.end && (e.start == r[0] || e.start == r[1])) {
+					drop = true
+				}
+			}
+			if !drop {
+				kept = append(kept, e)
+			}
+		}
+		c.edits = kept
 	}
 	if len(c.edits) == 0 {
 		return src, false
@@ -302,6 +329,9 @@ func instrumentFile(fset *token.FileSet, info *types.Info, f *ast.File, src []by
 	}
 	if c.timeIdent != "" {
 		out = append(out, []byte(fmt.Sprintf("\nvar _ = %s.Now\n", c.timeIdent))...)
+	}
+	if c.runtimeIdent != "" {
+		out = append(out, []byte(fmt.Sprintf("\nvar _ = %s.Gosched\n", c.runtimeIdent))...)
 	}
 	return out, true
 }
@@ -334,14 +364,20 @@ func (c *fileCtx) newSite(pos token.Pos, kind, expr string) int {
 
 func (c *fileCtx) walk(root ast.Node) {
 	skip := map[*ast.BlockStmt]bool{}
+	labeled := map[ast.Stmt]bool{}
 	ast.Inspect(root, func(n ast.Node) bool {
 		switch n := n.(type) {
 		case *ast.SwitchStmt:
 			skip[n.Body] = true
 		case *ast.TypeSwitchStmt:
 			skip[n.Body] = true
+		case *ast.LabeledStmt:
+			labeled[n.Stmt] = true
 		case *ast.SelectStmt:
 			skip[n.Body] = true
+			if c.selectStmt(n, labeled[n]) {
+				return false
+			}
 		case *ast.BlockStmt:
 			if !skip[n] {
 				c.yields(n.List)
@@ -349,23 +385,172 @@ func (c *fileCtx) walk(root ast.Node) {
 		case *ast.CaseClause:
 			c.yields(n.Body)
 		case *ast.CommClause:
+			// only reached for a select that is left as it is
 			c.yields(n.Body)
-			c.unmodelled(n.Pos(), "select")
 		case *ast.RangeStmt:
-			c.rangeStmt(n)
+			c.rangeStmt(n, labeled[n])
 		case *ast.CallExpr:
 			c.call(n)
 		case *ast.GoStmt:
 			c.goStmt(n)
+		case *ast.AssignStmt:
+			if len(n.Lhs) == 2 && len(n.Rhs) == 1 {
+				if u, ok := unparen(n.Rhs[0]).(*ast.UnaryExpr); ok && u.Op == token.ARROW {
+					c.recv2[u] = true
+				}
+			}
+		case *ast.ValueSpec:
+			if len(n.Names) == 2 && len(n.Values) == 1 {
+				if u, ok := unparen(n.Values[0]).(*ast.UnaryExpr); ok && u.Op == token.ARROW {
+					c.recv2[u] = true
+				}
+			}
 		case *ast.SendStmt:
-			c.unmodelled(n.Pos(), "channel send")
+			c.sendStmt(n)
 		case *ast.UnaryExpr:
 			if n.Op == token.ARROW {
-				c.unmodelled(n.Pos(), "channel receive")
+				c.recvExpr(n)
 			}
 		}
 		return true
 	})
+}
+
+func unparen(e ast.Expr) ast.Expr {
+	for {
+		p, ok := e.(*ast.ParenExpr)
+		if !ok {
+			return e
+		}
+		e = p.X
+	}
+}
+
+// sendStmt: ch <- v  ->  __simrt.S(N, ch).Send(v)
+func (c *fileCtx) sendStmt(n *ast.SendStmt) {
+	if !*flagChans {
+		c.unmodelled(n.Pos(), "channel send")
+		return
+	}
+	id := c.newSite(n.Pos(), "send", c.text(n.Chan))
+	if !pure(n.Chan) {
+		c.opaque = append(c.opaque, [2]int{c.off(n.Chan.Pos()), c.off(n.Chan.End())})
+	}
+	c.edits = append(c.edits, edit{c.off(n.Chan.Pos()), c.off(n.Chan.End()), fmt.Sprintf("__simrt.S(%d, %s", id, c.text(n.Chan))})
+	c.edits = append(c.edits, edit{c.off(n.Chan.End()), c.off(n.Value.Pos()), ").Send("})
+	c.edits = append(c.edits, edit{c.off(n.Value.End()), c.off(n.Value.End()), ")"})
+	sum.ChanOps++
+}
+
+// recvExpr: <-ch  ->  __simrt.Recv(N, ch)   (Recv2 for the two-valued form)
+func (c *fileCtx) recvExpr(n *ast.UnaryExpr) {
+	if !*flagChans {
+		c.unmodelled(n.Pos(), "channel receive")
+		return
+	}
+	id := c.newSite(n.Pos(), "recv", "")
+	fn := "Recv"
+	if c.recv2[n] {
+		fn = "Recv2"
+	}
+	c.edits = append(c.edits, edit{c.off(n.OpPos), c.off(n.OpPos) + 2, fmt.Sprintf("__simrt.%s(%d, ", fn, id)})
+	c.edits = append(c.edits, edit{c.off(n.X.End()), c.off(n.X.End()), ")"})
+	sum.ChanOps++
+}
+
+// selectStmt rewrites
+//
+//	select { case v := <-a: A; case b <- x: B; default: D }
+//
+// into
+//
+//	{ __c0 := __simrt.RecvCase(a); __c1 := __simrt.SendTo(b).With(x)
+//	  switch __s := __simrt.Select(N, true, __c0.C, __c1); __s.K {
+//	  case 0: v := __c0.Val(__s); A
+//	  case 1: B
+//	  default: D } }
+//
+// It reports whether it did (if not, the statement is walked as usual).
+func (c *fileCtx) selectStmt(n *ast.SelectStmt, isLabeled bool) bool {
+	ncomm := 0
+	ok := *flagChans && !isLabeled
+	for _, s := range n.Body.List {
+		cc := s.(*ast.CommClause)
+		if cc.Comm == nil {
+			continue
+		}
+		ncomm++
+		switch cm := cc.Comm.(type) {
+		case *ast.SendStmt:
+		case *ast.ExprStmt:
+			if u, isU := unparen(cm.X).(*ast.UnaryExpr); !isU || u.Op != token.ARROW {
+				ok = false
+			}
+		case *ast.AssignStmt:
+			if len(cm.Rhs) != 1 || len(cm.Lhs) > 2 {
+				ok = false
+			} else if u, isU := unparen(cm.Rhs[0]).(*ast.UnaryExpr); !isU || u.Op != token.ARROW {
+				ok = false
+			}
+		default:
+			ok = false
+		}
+	}
+	if !ok || ncomm > 8 {
+		c.unmodelled(n.Pos(), "select")
+		return false
+	}
+	id := c.newSite(n.Pos(), "select", "")
+	var hoist strings.Builder
+	var args []string
+	hasDefault := false
+	k := 0
+	for _, s := range n.Body.List {
+		cc := s.(*ast.CommClause)
+		var head string
+		switch cm := cc.Comm.(type) {
+		case nil:
+			hasDefault = true
+			head = "default:"
+		case *ast.SendStmt:
+			fmt.Fprintf(&hoist, "__c%d_%d := __simrt.SendTo(%s).With(%s); ", id, k, c.text(cm.Chan), c.text(cm.Value))
+			args = append(args, fmt.Sprintf("__c%d_%d", id, k))
+			head = fmt.Sprintf("case %d:", k)
+			k++
+		case *ast.ExprStmt:
+			u := unparen(cm.X).(*ast.UnaryExpr)
+			fmt.Fprintf(&hoist, "__c%d_%d := __simrt.RecvCase(%s); ", id, k, c.text(u.X))
+			args = append(args, fmt.Sprintf("__c%d_%d.C", id, k))
+			head = fmt.Sprintf("case %d:", k)
+			k++
+		case *ast.AssignStmt:
+			u := unparen(cm.Rhs[0]).(*ast.UnaryExpr)
+			fmt.Fprintf(&hoist, "__c%d_%d := __simrt.RecvCase(%s); ", id, k, c.text(u.X))
+			args = append(args, fmt.Sprintf("__c%d_%d.C", id, k))
+			tok := cm.Tok.String()
+			if len(cm.Lhs) == 1 {
+				head = fmt.Sprintf("case %d: %s %s __c%d_%d.Val(__s%d);", k, c.text(cm.Lhs[0]), tok, id, k, id)
+			} else {
+				head = fmt.Sprintf("case %d: %s, %s %s __c%d_%d.Val(__s%d), __s%d.OK;", k, c.text(cm.Lhs[0]), c.text(cm.Lhs[1]), tok, id, k, id, id)
+			}
+			k++
+		}
+		c.edits = append(c.edits, edit{c.off(cc.Case), c.off(cc.Colon) + 1, head})
+		c.yields(cc.Body)
+		for _, b := range cc.Body {
+			c.walk(b)
+		}
+	}
+	call := fmt.Sprintf("__simrt.Select(%d, %v", id, hasDefault)
+	for _, a := range args {
+		call += ", " + a
+	}
+	call += ")"
+	c.edits = append(c.edits, edit{c.off(n.Select), c.off(n.Body.Lbrace) + 1, fmt.Sprintf("{ %sswitch __s%d := %s; __s%d.K {", hoist.String(), id, call, id)})
+	c.edits = append(c.edits, edit{c.off(n.End()), c.off(n.End()), " }"})
+	sum.ChanOps++
+	sum.Selects++
+	return true
 }
 
 func (c *fileCtx) unmodelled(pos token.Pos, what string) {
@@ -429,14 +614,35 @@ func isBlank(e ast.Expr) bool {
 	return ok && id.Name == "_"
 }
 
-func (c *fileCtx) rangeStmt(n *ast.RangeStmt) {
+func (c *fileCtx) rangeStmt(n *ast.RangeStmt, isLabeled bool) {
 	tv, ok := c.info.Types[n.X]
 	if !ok || tv.Type == nil {
 		return
 	}
 	switch u := tv.Type.Underlying().(type) {
 	case *types.Chan:
-		c.unmodelled(n.Pos(), "range over channel")
+		if !*flagChans || n.Value != nil {
+			c.unmodelled(n.Pos(), "range over channel")
+			return
+		}
+		// for v := range ch {  ->  for __ch := ch; ; { v, __ok := __simrt.Recv2(N, __ch); if !__ok { break };
+		// (one for statement, so a label on it keeps its meaning; the ranged
+		// expression is evaluated once, as in Go)
+		id := c.newSite(n.Pos(), "rangechan", c.text(n.X))
+		var b strings.Builder
+		fmt.Fprintf(&b, "for __ch%d := %s; ; { ", id, c.text(n.X))
+		x := fmt.Sprintf("__ch%d", id)
+		switch {
+		case isBlank(n.Key):
+			fmt.Fprintf(&b, "_, __ok%d := __simrt.Recv2(%d, %s); if !__ok%d { break };", id, id, x, id)
+		case n.Tok == token.DEFINE:
+			fmt.Fprintf(&b, "%s, __ok%d := __simrt.Recv2(%d, %s); if !__ok%d { break };", c.text(n.Key), id, id, x, id)
+		default:
+			fmt.Fprintf(&b, "__v%d, __ok%d := __simrt.Recv2(%d, %s); if !__ok%d { break }; %s = __v%d;", id, id, id, x, id, c.text(n.Key), id)
+		}
+		c.edits = append(c.edits, edit{c.off(n.For), c.off(n.Body.Lbrace) + 1, b.String()})
+		c.opaque = append(c.opaque, [2]int{c.off(n.For), c.off(n.Body.Lbrace) + 1})
+		sum.ChanOps++
 		return
 	case *types.Map:
 		p := c.fset.Position(n.Pos())
@@ -510,10 +716,18 @@ func (c *fileCtx) mutexPath(sel *ast.SelectorExpr) (expr string, isPtr bool, kin
 	}
 	kind = named.Obj().Name()
 	if kind != "Mutex" && kind != "RWMutex" && kind != "Pool" && kind != "WaitGroup" && kind != "Once" && kind != "Cond" {
-		if kind == "Map" {
-			c.unmodelled(sel.Pos(), "sync."+kind+"."+sel.Sel.Name)
+		if kind != "Map" {
+			return "", false, "", false
 		}
-		return "", false, "", false
+		if sel.Sel.Name != "Range" {
+			// Load, Store, ... of a sync.Map do not block and are synchronised by
+			// the real thing.
+			return "", false, "", false
+		}
+		if !*flagChans {
+			c.unmodelled(sel.Pos(), "sync.Map.Range")
+			return "", false, "", false
+		}
 	}
 	// Walk the implicit embedded-field path.
 	expr = c.text(sel.X)
@@ -542,9 +756,41 @@ func (c *fileCtx) mutexPath(sel *ast.SelectorExpr) (expr string, isPtr bool, kin
 }
 
 func (c *fileCtx) call(n *ast.CallExpr) {
+	if id, ok := n.Fun.(*ast.Ident); ok && id.Name == "close" && len(n.Args) == 1 {
+		if _, isB := c.info.Uses[id].(*types.Builtin); isB {
+			if !*flagChans {
+				c.unmodelled(n.Pos(), "close of a channel")
+				return
+			}
+			sid := c.newSite(n.Pos(), "close", "")
+			c.edits = append(c.edits, edit{c.off(n.Pos()), c.off(n.Lparen) + 1, fmt.Sprintf("__simrt.Close(%d, ", sid)})
+			sum.ChanOps++
+		}
+		return
+	}
 	sel, ok := n.Fun.(*ast.SelectorExpr)
 	if !ok {
 		return
+	}
+	if id, ok := sel.X.(*ast.Ident); ok {
+		if pn, ok := c.info.Uses[id].(*types.PkgName); ok {
+			switch pn.Imported().Path() {
+			case "runtime":
+				if sel.Sel.Name == "Gosched" && *flagChans {
+					c.edits = append(c.edits, edit{c.off(sel.Pos()), c.off(sel.End()), "__simrt.Gosched"})
+					c.runtimeIdent = id.Name
+				}
+				return
+			case "context":
+				if sel.Sel.Name == "WithTimeout" || sel.Sel.Name == "WithDeadline" || sel.Sel.Name == "WithCancel" || sel.Sel.Name == "WithTimeoutCause" || sel.Sel.Name == "WithDeadlineCause" || sel.Sel.Name == "WithCancelCause" {
+					c.unmodelled(n.Pos(), "context."+sel.Sel.Name)
+				}
+				return
+			case "os/signal":
+				c.unmodelled(n.Pos(), "signal."+sel.Sel.Name)
+				return
+			}
+		}
 	}
 	// Clock reads.
 	if id, ok := sel.X.(*ast.Ident); ok {
@@ -555,6 +801,10 @@ func (c *fileCtx) call(n *ast.CallExpr) {
 					c.timeIdent = id.Name
 					sum.ClockReads++
 				}
+			} else if sel.Sel.Name == "Sleep" && *flagChans {
+				c.edits = append(c.edits, edit{c.off(sel.Pos()), c.off(sel.End()), "__simrt.Sleep"})
+				c.timeIdent = id.Name
+				sum.Sleeps++
 			} else if sel.Sel.Name == "Sleep" || sel.Sel.Name == "After" || sel.Sel.Name == "NewTimer" || sel.Sel.Name == "Tick" || sel.Sel.Name == "AfterFunc" || sel.Sel.Name == "NewTicker" {
 				c.unmodelled(n.Pos(), "time."+sel.Sel.Name)
 			}
@@ -603,6 +853,18 @@ func (c *fileCtx) call(n *ast.CallExpr) {
 		fn = "CondSignal"
 	case "Cond.Broadcast":
 		fn = "CondBroadcast"
+	case "Map.Range":
+		if len(n.Args) != 1 {
+			return
+		}
+		arg := "&" + expr
+		if isPtr {
+			arg = expr
+		}
+		sid := c.newSite(n.Pos(), "syncmaprange", expr)
+		c.edits = append(c.edits, edit{c.off(n.Pos()), c.off(n.Lparen) + 1, fmt.Sprintf("__simrt.SyncMapRange(%d, %s, ", sid, arg)})
+		sum.SyncMapRanges++
+		return
 	default:
 		return
 	}
